@@ -1,8 +1,19 @@
 (** Invariant, abstraction and the infrastructure lemmas for the deque model (part 1):
-    list memory (blit / memmove), mask arithmetic, [dq_wf] / [repr] / [dq_inv] / [dq_abs],
-    and the operations that touch one slot (add_first, add_last, replace_at, get_*, remove_first,
-    remove_last, remove_all).  Parts 2-4 hold the shifting operations, the loops, the history
-    theorems and the lemma families for the cross-cutting properties. *)
+    list memory (blit / memmove), mask arithmetic, [dq_wf] / [repr] / [dq_inv] / [dq_abs], the ledger
+    predicates [owns] / [led_step], copy_buffer and expand_capacity.
+    Part 2: get_*, replace_at, remove_first/last/all, add_first/last, remove_at (four branches), add_at under
+            its branch guard.            Part 3: upper_pow_two, constructor, trim, copy_shallow/deep.
+    Part 4: the loops (index_of, contains, foreach, reverse, filter_mut, filter), [dq_step_refines],
+            [dq_run_refines], the add_at refutations.
+    Part 5: lemma families for C06/C07/C08/C09/C14/C16/C20 (ledger balance and tags, iterator and zip
+            refinement, atomicity, queue FIFO, generated range guards, capacity facts).
+
+    NOT proved in Coq (tied by the correspondence run only):
+      - cc_deque_zip_iter_add (two growths followed by two add_at; inherits D17 on both deques);
+      - cc_deque_add_at outside [add_at_branch_ok]: refuted ([deque_add_at_refuted], [.._back]), and in those
+        branches the model may also move an unwritten slot into the live range (Fault Uninit at the next read);
+      - independence of a copy and its source (no shared buffer can be expressed in a functional model);
+      - CC_ERR_MAX_CAPACITY (capacity 2^31) is in the model and in the proofs but never reached by a trace. *)
 From CC Require Import Base.Prelude Base.ListMem Base.ModArith Base.Alloc Base.AllocProofs.
 From CC Require Import Generated.Status Generated.Constants Generated.Guards Deque.DequeModel.
 Local Open Scope N_scope.
@@ -410,6 +421,13 @@ Definition owns (d : deque) (a : alloc_st) : Prop :=
   (exists n, In {| b_id := dq_hdr d; b_tag := dq_mem d; b_bytes := n |} (live a)) /\
   (exists n, In {| b_id := dq_buf d; b_tag := dq_mem d; b_bytes := n |} (live a)).
 
+(** what an operation may do to the ledger: nothing, or replace the buffer block by a fresh one of the
+    container's own tag (allocated first, then the old one released) *)
+Definition led_step (d : deque) (a : alloc_st) (d' : deque) (a' : alloc_st) : Prop :=
+  (live a' = live a /\ dq_buf d' = dq_buf d) \/
+  (exists bytes, live a' = {| b_id := dq_buf d'; b_tag := dq_mem d; b_bytes := bytes |} :: without (dq_buf d) (live a) /\
+                 dq_buf d' = next_id a).
+
 (** * copy_buffer (shallow), expand_capacity *)
 Lemma copy_buffer_spec d l buff :
   dq_wf d -> repr d l -> dq_size d <= lenN buff ->
@@ -473,7 +491,8 @@ Lemma expand_spec d l a :
   exists st d' a', dq_expand d a = Ok (st, d', a') /\
     ((st = CC_OK /\ dq_wf d' /\ repr d' l /\ owns d' a' /\ same_ids d d' /\ dq_cap d' = 2 * dq_cap d /\
       dq_size d' = dq_size d /\ dq_first d' = 0 /\
-      live a' = {| b_id := dq_buf d'; b_tag := dq_mem d; b_bytes := 2 * dq_cap d * 8 |} :: without (dq_buf d) (live a)) \/
+      live a' = {| b_id := dq_buf d'; b_tag := dq_mem d; b_bytes := 2 * dq_cap d * 8 |} :: without (dq_buf d) (live a) /\
+      dq_buf d' = next_id a) \/
      (st <> CC_OK /\ d' = d /\ alloc_failed d a a')).
 Proof.
   intros Hwf Hr Ho. pose proof (wf_cap d Hwf) as Hc.
@@ -491,7 +510,7 @@ Proof.
       as (a2 & Hrel & Hl2 & Hnx & _ & _ & _ & Hok2); [rewrite Hlive; right; assumption|reflexivity|reflexivity|].
     rewrite Hrel. cbn [bind]. do 3 eexists. split; [reflexivity|]. left. split; [reflexivity|].
     rewrite lenN_repeatN in Hlb. destruct Hr as [Hl Hr]. destruct Hwf as [Hp Hlen Hf Hs Hlast].
-    split; [|split; [|split; [|split; [|split; [|split; [|split]]]]]]; cbn [dq_cap dq_size dq_first dq_last dq_slots dq_hdr dq_buf dq_mem]; try reflexivity.
+    split; [|split; [|split; [|split; [|split; [|split; [|split; [|split]]]]]]]; cbn [dq_cap dq_size dq_first dq_last dq_slots dq_hdr dq_buf dq_mem]; try reflexivity; try assumption.
     + constructor; cbn [dq_cap dq_size dq_first dq_last dq_slots]; try lia.
       * apply pow2_double; [assumption|lia].
       * unfold idx. replace (0 + dq_size d <? 2 * dq_cap d) with true by lia. lia.
@@ -513,15 +532,15 @@ Lemma grow_if_spec (full : bool) d l a :
   exists ok d1 a1, grow_if full d a = Ok (ok, d1, a1) /\
     ((ok = true /\ dq_wf d1 /\ repr d1 l /\ owns d1 a1 /\ same_ids d d1 /\ dq_size d1 = dq_size d /\ dq_size d1 < dq_cap d1 /\
       (full = false -> d1 = d /\ a1 = a) /\
-      (full = true -> dq_cap d1 = 2 * dq_cap d /\ dq_first d1 = 0)) \/
+      (full = true -> dq_cap d1 = 2 * dq_cap d /\ dq_first d1 = 0) /\ led_step d a d1 a1) \/
      (ok = false /\ d1 = d /\ alloc_failed d a a1)).
 Proof.
   intros Hwf Hr Ho Ht Hf. unfold grow_if. destruct full.
   - destruct (expand_spec d l a Hwf Hr Ho) as (st & d' & a' & He & [H|H]); rewrite He; cbn [bind].
-    + destruct H as (-> & Hwf' & Hr' & Ho' & Hid & Hc & Hs & Hf0 & _). do 3 eexists. split; [reflexivity|]. left.
+    + destruct H as (-> & Hwf' & Hr' & Ho' & Hid & Hc & Hs & Hf0 & Hlv & Hnb). do 3 eexists. split; [reflexivity|]. left.
       pose proof (wf_cap d Hwf). specialize (Ht eq_refl).
-      splits; auto; try lia; try discriminate.
+      splits; auto; try lia; try discriminate. right. eauto.
     + destruct H as (Hne & -> & Hfail). do 3 eexists. split; [reflexivity|]. right.
       split; [|split; [reflexivity|assumption]]. destruct st; try reflexivity. congruence.
-  - do 3 eexists. split; [reflexivity|]. left. specialize (Hf eq_refl). unfold same_ids. splits; auto; discriminate.
+  - do 3 eexists. split; [reflexivity|]. left. specialize (Hf eq_refl). unfold same_ids. splits; auto; try discriminate. left. auto.
 Qed.
